@@ -83,6 +83,45 @@ def pose_digests(g):
     return [dg(v.pose) for v in g._vertices]
 
 
+def _bits(p):
+    """A pose object of the same class holding the same float64 bits, made without calling any library code but the class's array hooks."""
+    return np.array(np.asarray(p), dtype=np.float64).view(type(p))
+
+
+def _val(x):
+    if isinstance(x, BasePose):
+        return _bits(x)
+    if isinstance(x, np.ndarray):
+        return np.array(x)
+    return copy.deepcopy(x)
+
+
+def fresh_clone(g):
+    """A graph built FROM SCRATCH out of the numbers of g (the abstract state of the specification: ids, kinds, flags, poses, measurements,
+    information, offsets, list orders): new Vertex objects, new edge objects carrying only the documented attributes (and the public extra
+    attributes of user-defined classes), a new Graph.  Whatever else the objects of g have accumulated in their history is not carried over."""
+    from graphslam.vertex import Vertex
+    vs = [Vertex(v.id, _bits(v.pose), bool(v.fixed)) for v in g._vertices]
+    es = []
+    for e in g._edges:
+        n = type(e).__new__(type(e))
+        for k, x in vars(e).items():
+            if k == 'vertices':
+                n.vertices = None
+            elif k == 'vertex_ids':
+                n.vertex_ids = list(x) if isinstance(x, list) else copy.deepcopy(x)
+            elif not k.startswith('_'):
+                setattr(n, k, _val(x))
+        es.append(n)
+    h = Graph(es, vs)
+    if hasattr(g, '_g2o_params'):
+        h._g2o_params = copy.deepcopy(g._g2o_params)
+    return h
+
+
+FRESH_QUERIES = ('calc_chi2', 'edge_error', 'edge_chi2', 'edge_jacobians', 'edge_contribs', 'to_g2o', 'vertex_to_g2o', 'edge_to_g2o')
+
+
 class Session:
     """One recorded session on one real graph."""
 
@@ -90,6 +129,8 @@ class Session:
         self.sid, self.sink, self.seq = sid, sink, 0
         self.g = None
         self.details = {}        # seq -> extra (not given to TLC) for diagnostics / finding keys
+        self.fresh = True        # compare queries / optimizer calls with a graph rebuilt from scratch out of the current numbers
+        self.edits = 0
 
     def emit(self, ev, verts, edges, detail=None):
         self.seq += 1
@@ -132,7 +173,19 @@ class Session:
         except Exception as ex:  # noqa  -- observation: a query must not raise on a valid graph
             res = 'raised:' + type(ex).__name__
             self.ok = False
-        self.emit({'op': 'Query', 'q': q, 'target': int(target), 'result': res, 'ok': bool(self.ok)}, g._vertices, g._edges)
+        # the same query on a graph built from scratch out of the current numbers: a query's value is a function of the abstract state
+        fresh = res
+        if q in FRESH_QUERIES and self.fresh:
+            ok0 = self.ok
+            try:
+                h = fresh_clone(g)
+                fresh = self._do_query(q, h, h._edges[(target - 1) % len(h._edges)] if h._edges else None, h._vertices[(target - 1) % len(h._vertices)])
+            except NotImplementedError:
+                fresh = 'raised:NotImplementedError'
+            except Exception as ex:  # noqa
+                fresh = 'raised:' + type(ex).__name__
+            self.ok = ok0
+        self.emit({'op': 'Query', 'q': q, 'target': int(target), 'result': res, 'fresh': fresh, 'ok': bool(self.ok)}, g._vertices, g._edges)
 
     def _do_query(self, q, g, e, v):
         import matplotlib.pyplot as plt
@@ -217,6 +270,51 @@ class Session:
         g._vertices[(idx - 1) % len(g._vertices)].fixed = bool(flag)
         self.emit({'op': 'SetFixed', 'idx': (idx - 1) % len(g._vertices) + 1, 'flag': bool(flag)}, g._vertices, g._edges)
 
+    # ---- the user's own edits between calls (public attributes) ----
+    def set_pose(self, idx):
+        """Move a vertex (a new initial guess): alternately a NEW pose object is assigned, or the stored array is written in place."""
+        g = self.g
+        j = (idx - 1) % len(g._vertices)
+        v = g._vertices[j]
+        self.edits += 1
+        d = 0.03125 * (1 + self.edits % 3)
+        if self.edits % 2 or sum(1 for w in g._vertices if w.pose is v.pose) != 1:
+            v.pose = v.pose + np.full(v.pose.COMPACT_DIMENSIONALITY, d)
+        else:
+            v.pose[0] += d
+        self.emit({'op': 'SetPose', 'idx': j + 1}, g._vertices, g._edges)
+
+    def set_meas(self, n):
+        """Change a measurement: alternately the information matrix (scaled, new array), the estimate (new object) or the estimate in place."""
+        g = self.g
+        if not g._edges:
+            self.emit({'op': 'SetMeas', 'idx': 0}, g._vertices, g._edges)
+            return
+        j = (n - 1) % len(g._edges)
+        e = g._edges[j]
+        self.edits += 1
+        mode = self.edits % 3
+        est = e.estimate
+        if mode == 2 and sum(1 for f in g._edges if f.estimate is est) != 1:
+            mode = 1            # (an estimate object shared by several edges is replaced, not written)
+        if mode == 0 or est is None:
+            e.information = np.asarray(e.information) * 2.0
+        elif isinstance(est, BasePose):
+            if mode == 1:
+                e.estimate = est + np.full(est.COMPACT_DIMENSIONALITY, 0.0625)
+            else:
+                est[0] += 0.0625
+        elif isinstance(est, np.ndarray) and est.dtype.kind == 'f' and est.size:
+            if mode == 1:
+                e.estimate = est + 0.0625
+            else:
+                est.flat[0] += 0.0625
+        elif isinstance(est, float):
+            e.estimate = est + 0.0625
+        else:
+            e.information = np.asarray(e.information) * 2.0
+        self.emit({'op': 'SetMeas', 'idx': j + 1}, g._vertices, g._edges)
+
     # ---- file round trip: the session continues on Graph.from_g2o(file written by to_g2o) ----
     def reload(self):
         g = self.g
@@ -258,7 +356,7 @@ class Session:
         except Exception as ex:  # noqa  -- an exception escaping the library is an observation, not a failure of the harness
             g = self.g
             rep = {'numIter': -1, 'converged': False, 'lenResults': -1, 'lastComplete': False, 'rows': -1, 'initialOk': False, 'finalOk': False,
-                   'chi2sOk': False, 'finalIsChi2': False, 'appliedSet': [-1], 'verboseOk': True, 'splitOk': True, 'strRows': -1, 'strHeaderOk': False}
+                   'chi2sOk': False, 'finalIsChi2': False, 'appliedSet': [-1], 'verboseOk': True, 'splitOk': True, 'freshOk': True, 'strRows': -1, 'strHeaderOk': False}
             self.emit({'op': 'OptCall', 'maxIter': int(max_iter), 'fixFirst': bool(fix_first), 'verbose': bool(verbose), 'cls': ['F'] * int(max_iter), 'rep': rep,
                        'raised': True}, g._vertices, g._edges,
                       {'chi2s': [], 'report': {}, 'nan': False, 'was_fixed': [], 'tol': tol, 'isolated_fixed': [], 'exception': repr(ex)})
@@ -301,6 +399,7 @@ class Session:
             amb = (tol != 0.0 and abs(rel - tol) <= 1e-9 * abs(tol)) or (cur != prev and abs(cur - prev) <= 4 * EPS * abs(prev))
             cls.append('A' if amb else ('T' if stop else 'F'))
         twin_g = copy.deepcopy(g) if twin else None
+        fresh_g = fresh_clone(g) if self.fresh else None
         split_g = copy.deepcopy(g) if split else None
         buf = io.StringIO()
         with contextlib.redirect_stdout(buf):
@@ -326,6 +425,14 @@ class Session:
                   'nan': bool(any(np.any(np.isnan(np.asarray(v.pose))) for v in g._vertices)),
                   'was_fixed': was_fixed, 'tol': tol,
                   'isolated_fixed': [bool(v.fixed) and not any(v in e.vertices for e in g._edges) for v in g._vertices]}
+        rep['freshOk'] = True
+        if fresh_g is not None:
+            # the same call on a graph built from scratch out of the numbers the recorded graph had before the call
+            with contextlib.redirect_stdout(io.StringIO()):
+                r4 = fresh_g.optimize(tol=tol, max_iter=m, fix_first_pose=fix_first, verbose=False)
+            rep['freshOk'] = bool(pose_digests(fresh_g) == after and r4.num_iterations == ret.num_iterations and r4.converged == ret.converged
+                                  and same(r4.final_chi2, ret.final_chi2) and same(r4.initial_chi2, ret.initial_chi2)
+                                  and len(r4.iteration_results) == len(ret.iteration_results))
         if twin:
             with contextlib.redirect_stdout(io.StringIO()):
                 r2 = twin_g.optimize(tol=tol, max_iter=m, fix_first_pose=fix_first, verbose=not verbose)
